@@ -16,8 +16,13 @@ LOG = []
 
 
 class SM:
+    """plain managers are FALSY (an empty pool, say): hook results must be told apart by identity with None / PRUNE"""
+
     def __init__(self, i):
         self.i = i
+
+    def __len__(self):
+        return 0
 
     def __enter__(self):
         return self
